@@ -43,7 +43,8 @@ Definition stream_eqb (a b : stream) : bool :=
   &&&& phase_eqb (s_phase a) (s_phase b) &&&& sstate_eqb (s_state a) (s_state b)
   &&&& Bool.eqb (s_fcons a) (s_fcons b) &&&& Nat.eqb (s_attempts a) (s_attempts b)
   &&&& Bool.eqb (s_ka a) (s_ka b) &&&& origin_eqb (s_origin a) (s_origin b)
-  &&&& Bool.eqb (s_done a) (s_done b) &&&& Bool.eqb (s_clean a) (s_clean b).
+  &&&& Bool.eqb (s_done a) (s_done b) &&&& Bool.eqb (s_clean a) (s_clean b)
+  &&&& Bool.eqb (s_ropen a) (s_ropen b).
 Definition conn_eqb (a b : conn) : bool :=
   Bool.eqb (c_int_w a) (c_int_w b) &&&& Bool.eqb (c_ev_w a) (c_ev_w b)
   &&&& Bool.eqb (c_ftimer a) (c_ftimer b) &&&& Bool.eqb (c_btimer a) (c_btimer b)
@@ -94,14 +95,14 @@ Definition all_causes : list cause :=
    KHttpsRedirect; KNoMethod; KNoHost; KNoPath; KNotFound; KTooManyPerIp].
 
 Definition all_inputs : list input :=
-  [IReqHead; IConnect None] ++ map (fun k => IConnect (Some k)) all_causes ++
+  [IReqHead; IReqHeadBody; IReqBodyEnd; IConnect None] ++ map (fun k => IConnect (Some k)) all_causes ++
   [IReqSent; IBackPartial; IBackHead; IBackEnd; IBackNoKeepAlive; IBackClose; IBackGarbage;
    IFrontWrite true; IFrontWrite false; IFrontTimeout; IBackTimeout; IClientClose].
 
 Lemma all_inputs_complete : forall i, In i all_inputs.
 Proof.
   intros i; unfold all_inputs, all_causes; cbn.
-  destruct i as [ | [k|] | | | | | | | | [|] | | | ]; try destruct k;
+  destruct i as [ | | | [k|] | | | | | | | | [|] | | | ]; try destruct k;
     repeat (try (left; reflexivity); right).
 Qed.
 
@@ -301,10 +302,17 @@ Definition p_isolation (x : st) (i : input) : bool :=
         (negb (c_closed c') && implb (c_ftimer c) (c_ftimer c')
          && implb (c_int_w c) (c_int_w c') && implb (c_ev_w c) (c_ev_w c') && Bool.eqb (c_h2 c) (c_h2 c')).
 
+(** on an H1 frontend the slot is never reset for a "next request" while the body of the
+    answered request is still arriving: the connection ends with that response *)
+Definition is_recycle (e : ev) := match e with EvRecycle => true | _ => false end.
+Definition p_early (x : st) (i : input) : bool :=
+  implb (has_ev is_relay_end (evs x i) && negb (c_h2 (snd x)) && s_ropen (fst x))
+        (negb (has_ev is_recycle (evs x i)) && c_closed (snd (nxt x i))).
+
 Definition p_all (x : st) (i : input) : bool :=
   p_monitor x i && p_relay_clean x i && p_clean_source x i && p_truncated x i && p_timer x i
   && p_front_timeout x i && p_back_close x i && p_connect x i && p_budget x i && p_armed x i
-  && p_close_delim x i && p_abort_started x i && p_isolation x i.
+  && p_close_delim x i && p_abort_started x i && p_isolation x i && p_early x i.
 
 End WithRedirect.
 
@@ -399,7 +407,7 @@ Lemma split_p_all x i :
   p_truncated redir x i = true /\ p_timer redir x i = true /\ p_front_timeout redir x i = true /\
   p_back_close redir x i = true /\ p_connect redir x i = true /\ p_budget redir x i = true /\
   p_armed redir x i = true /\ p_close_delim redir x i = true /\ p_abort_started redir x i = true /\
-  p_isolation redir x i = true.
+  p_isolation redir x i = true /\ p_early redir x i = true.
 Proof.
   unfold p_all; intros H.
   repeat (apply andb_true_iff in H as [H ?]). repeat split; assumption.
@@ -494,7 +502,7 @@ Proof.
       set (y := run_st redir (fresh, init_conn h2) hist).
       assert (Hy : In y reach0) by (apply run_st_in_reach, init_in_reach).
       pose proof (local redir y i Hy) as L. apply split_p_all in L.
-      destruct L as (_ & _ & _ & _ & _ & _ & _ & _ & L & _ & _ & _ & _).
+      destruct L as (_ & _ & _ & _ & _ & _ & _ & _ & L & _ & _ & _ & _ & _).
       unfold p_budget in L. apply Nat.leb_le in L. exact L.
 Qed.
 
@@ -591,7 +599,7 @@ Proof.
   intros redir history i b x Hin.
   assert (Hx : In x reach0) by (apply run_st_in_reach, init_in_reach).
   pose proof (local redir x i Hx) as L. apply split_p_all in L.
-  destruct L as (_ & _ & _ & _ & _ & _ & _ & _ & _ & _ & _ & L & _).
+  destruct L as (_ & _ & _ & _ & _ & _ & _ & _ & _ & _ & _ & L & _ & _).
   unfold p_abort_started in L.
   assert (Hh : c_h2 (snd x) = false) by (subst x; apply h2_constant).
   rewrite Hh in L. cbn [orb] in L. rewrite forallb_forall in L. exact (L _ Hin).
@@ -611,7 +619,7 @@ Proof.
     set (y := run_st redir (fresh, init_conn h2) hist).
     assert (Hy : In y reach0) by (apply run_st_in_reach, init_in_reach).
     pose proof (local redir y i Hy) as L. apply split_p_all in L.
-    destruct L as (_ & _ & _ & _ & L1 & _ & _ & _ & _ & L2 & _ & _ & _).
+    destruct L as (_ & _ & _ & _ & L1 & _ & _ & _ & _ & L2 & _ & _ & _ & _).
     split.
     + intros Hc. unfold p_timer in L1. rewrite Hc in L1. exact L1.
     + intros Hc Hp Hm. unfold p_armed in L2. rewrite Hc, Hp, Hm in L2. cbn in L2.
@@ -627,7 +635,7 @@ Proof.
   intros redir h2 history i x Hr Hh Hk.
   assert (Hx : In x reach0) by (apply run_st_in_reach, init_in_reach).
   pose proof (local redir x i Hx) as L. apply split_p_all in L.
-  destruct L as (_ & _ & _ & _ & _ & _ & _ & _ & _ & _ & L & _ & _).
+  destruct L as (_ & _ & _ & _ & _ & _ & _ & _ & _ & _ & L & _ & _ & _).
   unfold p_close_delim, has_ev in L. rewrite Hr, Hh, Hk in L. cbn in L.
   apply andb_true_iff in L. exact L.
 Qed.
@@ -650,7 +658,7 @@ Proof.
   intros redir history si i bti x k Hb Hc.
   assert (Hx : In x reach0) by (apply run_st_in_reach, init_in_reach).
   pose proof (local redir x i Hx) as L. apply split_p_all in L.
-  destruct L as (_ & _ & _ & _ & _ & _ & _ & _ & _ & _ & _ & _ & L).
+  destruct L as (_ & _ & _ & _ & _ & _ & _ & _ & _ & _ & _ & _ & L & _).
   unfold p_isolation in L. rewrite Hb, Hc in L.
   assert (Hview : view k false = snd x).
   { subst k. unfold view; cbn. destruct (snd x); reflexivity. }
@@ -670,4 +678,20 @@ Proof.
   - intros Ht. rewrite Ht in L2. exact L2.
   - intros Ht. rewrite Ht in L3. exact L3.
   - intros Ht. rewrite Ht in L4. exact L4.
+Qed.
+
+Lemma early_response_ends_connection_proof :
+  forall (redir : option N) (history : list input) (i : input),
+    let x := run_st redir (fresh, init_conn false) history in
+    existsb is_relay_end (evs redir x i) = true -> s_ropen (fst x) = true ->
+    existsb is_recycle (evs redir x i) = false /\ c_closed (snd (nxt redir x i)) = true.
+Proof.
+  intros redir history i x Hr Ho.
+  assert (Hx : In x reach0) by (apply run_st_in_reach, init_in_reach).
+  pose proof (local redir x i Hx) as L. apply split_p_all in L.
+  destruct L as (_ & _ & _ & _ & _ & _ & _ & _ & _ & _ & _ & _ & _ & L).
+  unfold p_early, has_ev in L.
+  assert (Hh : c_h2 (snd x) = false) by (subst x; apply h2_constant).
+  rewrite Hr, Hh, Ho in L. cbn in L. apply andb_true_iff in L as [L1 L2].
+  apply negb_true_iff in L1. split; assumption.
 Qed.
